@@ -59,6 +59,30 @@ class _ScriptedEstimate(ConvergenceController):
             self._k = k + 1
 
 
+class _ScriptedOutcome(ConvergenceController):
+    """for the adaptivity classes for converged collocation problems: the k-th attempt is made to fail to converge ('nc': the residual
+    is kept large until the iteration budget is used up), to converge with a too large error estimate (a ratio > 1 of the tolerance)
+    or to converge with an acceptable one (ratio < 1); after the script every attempt is fine"""
+
+    def setup(self, controller, params, description, **kwargs):
+        return {'control_order': -51, 'outcomes': (), 'e_tol': 1.0, **super().setup(controller, params, description, **kwargs)}
+
+    def _current(self):
+        k = getattr(self, '_k', 0)
+        return self.params.outcomes[k] if k < len(self.params.outcomes) else 0.3
+
+    def post_iteration_processing(self, controller, S, **kwargs):
+        o = self._current()
+        L = S.levels[0]
+        if o == 'nc':
+            L.status.residual = 1.0
+        else:
+            L.status.error_embedded_estimate = float(o) * self.params.e_tol
+
+    def prepare_next_block(self, controller, S, size, time, Tend, **kwargs):
+        self._k = getattr(self, '_k', 0) + 1
+
+
 class _Log(Hooks):
     def __init__(self):
         super().__init__()
@@ -104,6 +128,8 @@ def run(case):
                 convergence_controllers={(AdaptivityPolynomialError if poly else Adaptivity): ad, _RawProposal: {}, _Final: {},
                                          BasicRestartingNonMPI: dict(max_restarts=case.get('max_restarts', 10),
                                                                      crash_after_max_restarts=case.get('crash', True))})
+    if case.get('outcomes'):
+        desc['convergence_controllers'][_ScriptedOutcome] = dict(outcomes=tuple(case['outcomes']), e_tol=case['e_tol'])
     if case.get('script'):
         desc['convergence_controllers'][_ScriptedEstimate] = dict(ratios=tuple(case['script']), e_tol=case['e_tol'],
                                                                   per_iteration=bool(case.get('per_iteration')))
@@ -129,7 +155,7 @@ def run(case):
     for a in att:
         raw, e_est, order = a['raw'] if a['raw'] else (None, None, None)
         formula_ok = True
-        if raw is not None and e_est is not None:
+        if raw is not None and e_est is not None and not poly and order:
             formula_ok = bool(raw == beta * a['dt'] * (e_tol / e_est) ** (1.0 / order))
         fin = a['final'][0] if a['final'] else None
         exp = raw
